@@ -52,6 +52,7 @@ def designs(tier):
     out.append({'d': 'regmem'})
     out.append({'d': 'twomem'})
     out.append({'d': 'bidirseq'})
+    out.append({'d': 'revcomb'})
     out.append({'d': 'fsmreg'})
     out.append({'d': 'delayline', 'delay': 3, 'w': 1})
     out.append({'d': 'shiftbidir', 'depth': 3, 'w': 1})
@@ -147,6 +148,15 @@ def build(d, sub=None):
         q2 = hw.wire('q2')
         py4hw.Xor2(hw, 'xr', rd0, rd1, hw.wire('xr'))
         py4hw.Reg(hw, 'r2', hw._wires['xr'], q2)
+    elif k == 'revcomb':
+        # combinational blocks between registers, created consumer first: the very first block of the system reads a block
+        # that is created after it
+        x, load = I('x', 2), I('load')
+        q, sm, m, q2 = hw.wire('q', 2), hw.wire('sm', 2), hw.wire('m', 2), hw.wire('q2', 2)
+        py4hw.Mux2(hw, 'mux', load, sm, x, m)
+        py4hw.Add(hw, 'add', q, x, sm)
+        py4hw.Reg(hw, 'acc', m, q)
+        py4hw.Reg(hw, 'dly', sm, q2)
     elif k == 'bidirseq':
         # a bidirectional wire driven by a sequential block (prepare) and by an in/out buffer; a combinational reader
         # of the pad (the buffer's pin output) feeds a register
